@@ -114,6 +114,20 @@ def _bool_atom_pos(t):
     return None
 
 
+def _simple_value(t, depth=0):
+    """Constants, parameters, fields of parameters and aggregates of those."""
+    if depth > 6 or not isinstance(t, tuple) or not t:
+        return False
+    h = t[0]
+    if h in ("const", "param"):
+        return True
+    if h in ("field", "ok", "variant"):
+        return _simple_value(t[1], depth + 1)
+    if h == "agg":
+        return all(_simple_value(v, depth + 1) for _, v in t[2])
+    return False
+
+
 def subst_atom(atom, mapping, subst_params):
     """Rename the parameters occurring in an atom (callee summary -> caller terms)."""
     h = atom[0]
@@ -287,6 +301,23 @@ class GEA:
                             return (atom, v, o) if eq else (atom, o, v)
                         # multi-valued complement: represented by a set-valued refinement
                         return ("setatom", atom, frozenset([v]), others) if eq else ("setatom", atom, others, frozenset([v]))
+        # ordering comparison of a field-less enum value with one of its unit variants (derived PartialOrd =
+        # declaration order):  x >= E::V  is the set-valued atom  VARIANT(x) in {variants from V on}
+        ORD = {"core::cmp::PartialOrd::lt": "lt", "core::cmp::PartialOrd::le": "le", "core::cmp::PartialOrd::gt": "gt", "core::cmp::PartialOrd::ge": "ge"}
+        if t[0] == "call" and t[1] in ORD and len(t[3]) == 2:
+            for x, y, flip in ((t[3][0], t[3][1], False), (t[3][1], t[3][0], True)):
+                if y[0] == "agg" and isinstance(y[1], tuple) and y[1][0] == "adt" and not y[2] and x[0] != "agg":
+                    names = self._enum(y[1][1])
+                    if names is not None and len(names) > 1 and y[1][2] in names:
+                        k = names.index(y[1][2])
+                        op = ORD[t[1]]
+                        if flip:
+                            op = {"lt": "gt", "le": "ge", "gt": "lt", "ge": "le"}[op]
+                        idx = {"lt": range(0, k), "le": range(0, k + 1), "gt": range(k + 1, len(names)), "ge": range(k, len(names))}[op]
+                        tset = frozenset(names[i] for i in idx)
+                        fset = frozenset(names) - tset
+                        atom = ("VARIANT", P.strip_ok_preserving(x))
+                        return ("setatom", atom, fset, tset) if neg else ("setatom", atom, tset, fset)
         return bool_atom(term)
 
     def _enum(self, path):
@@ -328,6 +359,90 @@ class GEA:
                 nv[subst_atom(atom, mapping, subst_params)] = vs
             out.append((nv, res))
         return out
+
+    def value_summary(self, term):
+        """[(valuation, result term)] for a call of a workspace-local *pure* function whose result is, on every path, a
+        constant / parameter-derived value or an aggregate of such (e.g. `fn some_version(v) -> Option<Uuid>`,
+        `fn header_value(u) -> Option<&'static str>`); parameters substituted by the call's arguments.  None otherwise."""
+        if term[0] != "call":
+            return None
+        prog = self.body.prog
+        key = term[1]
+        callee = prog.bodies.get(key) or prog.bodies.get("bin:" + key)
+        if callee is None or callee.key == self.body.key or callee.kind not in ("Fn", "AssocFn"):
+            return None
+        if callee.locals[0]["ty"] in ("bool", "()"):
+            return None
+        cache = getattr(prog, "_value_cache", None)
+        if cache is None:
+            cache = prog._value_cache = {}
+        if key not in cache:
+            cache[key] = self._summarise_value(callee)
+        raw = cache[key]
+        if raw is None:
+            return None
+        from .effects import subst_params
+        mapping = {i + 1: a for i, a in enumerate(term[3])}
+        out = []
+        for sval, rt in raw:
+            nv = {}
+            for atom, vs in sval.items():
+                nv[subst_atom(atom, mapping, subst_params)] = vs
+            out.append((nv, subst_params(rt, mapping)))
+        return out
+
+    def _summarise_value(self, callee):
+        for bb, t in callee.calls():
+            d = t["callee"].get("def", "")
+            if d in EQ_CALLEES or d in PRED_CALLEES or d in OPTION_PREDS or d.startswith("core::cmp::PartialOrd::") \
+                    or d in P.TRANSPARENT or is_log_span(t["span"]) or d.startswith("core::fmt::") or d.startswith("log::") \
+                    or d in ("core::cmp::Ord::cmp", "core::cmp::PartialOrd::partial_cmp"):
+                continue
+            return None
+        try:
+            g = GEA(callee, max_states=20000)
+        except StateSpaceExceeded:
+            return None
+        out = []
+        for site in g.prov.defsites.get(0, []):
+            term = g.prov.def_term(site)
+            for val in g.vals_at(site):
+                rt = g.resolve_phis(term, val)
+                if not _simple_value(rt):
+                    return None
+                out.append(({a: vs for a, vs in val.items() if a[0] not in ("def", "val")}, rt))
+        return out or None
+
+    def resolve_vals(self, term, val):
+        """Replace calls of summarised pure helpers by the value bound for them in `val` (pseudo-atoms ('val', call))."""
+        if not isinstance(term, tuple) or not term:
+            return term
+        if not any(a[0] == "val" for a in val):
+            return term
+        h = term[0]
+        if h == "call":
+            b = val.get(("val", term))
+            if b is not None and len(b) == 1:
+                return next(iter(b))
+            return (h, term[1], term[2], tuple(self.resolve_vals(a, val) for a in term[3]))
+        if h == "ok":
+            return P.mk_ok(self.resolve_vals(term[1], val))
+        if h == "err":
+            return (h, self.resolve_vals(term[1], val))
+        if h == "field":
+            return P.mk_field(self.resolve_vals(term[1], val), term[2])
+        if h == "variant":
+            inner = self.resolve_vals(term[1], val)
+            return P.mk_variant(inner, term[2], "core::option::Option" if len(term) == 4 else None)
+        if h == "agg":
+            return (h, term[1], tuple((n, self.resolve_vals(v, val)) for n, v in term[2]))
+        if h == "mut":
+            return (h, term[1], term[2], self.resolve_vals(term[3], val))
+        if h == "binop":
+            return (h, term[1], self.resolve_vals(term[2], val), self.resolve_vals(term[3], val))
+        if h == "unop":
+            return (h, term[1], self.resolve_vals(term[2], val))
+        return term
 
     def _summarise_predicate(self, callee):
         # purity: only comparison / predicate / logging callees
@@ -383,6 +498,8 @@ class GEA:
         stays symbolic: the inner occurrence denotes the previous value."""
         if not isinstance(term, tuple) or not term:
             return term
+        if not _busy:
+            term = self.resolve_vals(term, val)
         h = term[0]
         if h == "phi":
             sel = val.get(("def", term[1]))
@@ -463,6 +580,37 @@ class GEA:
                     atom = ("VARIANT", P.strip_ok_preserving(r))
                     if atom not in self.atoms:
                         self.atoms[atom] = [bb]
+            if atom[0] == "VARIANT" and atom[1][0] == "call":
+                summ = self.value_summary(atom[1])
+                if summ is not None and all(rt[0] == "agg" and isinstance(rt[1], tuple) and rt[1][0] == "adt" for _, rt in summ):
+                    out = []
+                    for sval, rt in summ:
+                        vname = rt[1][2]
+                        if rt[1][1] in P.STD_SUM_TYPES:
+                            vname = norm_variant_name(vname)
+                        merged = dict(val)
+                        okm = True
+                        for a2, vs in sval.items():
+                            c2 = merged.get(a2)
+                            nv = vs if c2 is None else (vs & c2)
+                            if not nv:
+                                okm = False
+                                break
+                            merged[a2] = nv
+                            if a2 not in self.atoms:
+                                self.atoms[a2] = [bb]
+                        if not okm:
+                            continue
+                        c3 = merged.get(atom)
+                        nv3 = frozenset([vname]) if c3 is None else (frozenset([vname]) & c3)
+                        if not nv3:
+                            continue
+                        merged[atom] = nv3
+                        merged[("val", atom[1])] = frozenset([rt])
+                        for tg, vs in arms.items():
+                            if vname in vs:
+                                out.append((tg, merged))
+                    return out
             cur = val.get(atom)
             out = []
             for tg, vs in arms.items():
@@ -488,6 +636,7 @@ class GEA:
                 false_t = a["t"]
         true_t = t["otherwise"]
         # a call of a workspace-local pure predicate: split on its summary (helper-extracted guards)
+        term = self.resolve_vals(term, val)
         pterm, pneg = term, False
         while pterm[0] == "unop" and pterm[1] == "Not":
             pterm, pneg = pterm[2], not pneg
@@ -659,6 +808,10 @@ def ev(formula, val):
     h = formula[0]
     if h == "is":
         vs = val.get(formula[1])
+        if vs is None and formula[1][0] == "EQ":
+            d = derive_eq(val, formula[1])
+            if d is not None:
+                vs = frozenset([d])
         if vs is None:
             return None
         if formula[2] not in vs:
@@ -688,6 +841,53 @@ def ev(formula, val):
                 res = None
         return res
     raise ValueError(formula)
+
+
+def derive_eq(val, atom):
+    """Value of an undetermined equality atom that follows from the determined ones by reflexivity, symmetry and
+    transitivity of equality (x == z and y != z  =>  x != y;  x == z and y == z  =>  x == y)."""
+    parent = {}
+
+    def find(x):
+        while parent.get(x, x) != x:
+            x = parent[x]
+        return x
+    eqs, neqs = [], []
+    for a, vs in val.items():
+        if a[0] == "EQ" and len(vs) == 1:
+            (eqs if next(iter(vs)) is True else neqs).append((a[1], a[2]))
+    for x, y in eqs:
+        rx, ry = find(x), find(y)
+        if rx != ry:
+            parent[rx] = ry
+    x, y = find(atom[1]), find(atom[2])
+    if x == y:
+        return True
+    for p_, q_ in neqs:
+        rp, rq = find(p_), find(q_)
+        if (rp, rq) in ((x, y), (y, x)):
+            return False
+    return None
+
+
+def eq_consistent(val):
+    """False iff the determined equality atoms contradict each other (x == y chained to a pair known to differ)."""
+    parent = {}
+
+    def find(x):
+        while parent.get(x, x) != x:
+            x = parent[x]
+        return x
+    neqs = []
+    for a, vs in val.items():
+        if a[0] == "EQ" and len(vs) == 1:
+            if next(iter(vs)) is True:
+                rx, ry = find(a[1]), find(a[2])
+                if rx != ry:
+                    parent[rx] = ry
+            else:
+                neqs.append((a[1], a[2]))
+    return all(find(p_) != find(q_) for p_, q_ in neqs)
 
 
 def show_val(val):
